@@ -254,6 +254,14 @@ def decide(m: "Matcher", glob: str):
     """-> None (ok / skipped) or dict describing the deviation."""
     toks = tokenise(glob)
     if toks is None:
+        # a lone trailing backslash: what it denotes is unspecified, but whatever the translator makes of it must be a
+        # regular expression - otherwise re.compile raises re.error while REUSE.toml is loaded
+        regex = m.regex_for([glob])
+        try:
+            import re._parser as _sp  # type: ignore
+            _sp.parse(regex, 0)
+        except Exception as err:  # noqa: BLE001 - re.error and friends
+            return {"glob": glob, "regex": regex, "dir": "invalid", "witness": f"re.error: {err}", "classB": False}
         return "skipped"
     alpha = path_alphabet()
     regex = m.regex_for([glob])
@@ -495,6 +503,30 @@ def rule_attribution(ck: Check, repo: Repo) -> None:
     if got != "(PurePath(self.source) / path).relative_to(toml.directory)":
         r.violation(nq2, "path is not made relative to the REUSE.toml's directory",
                     f"toml.reuse_info_of receives {got}", repo.loc(fn))
+
+
+def rule_wellformed(ck: Check, repo: Repo, rid: str) -> None:
+    """Every glob - also one whose meaning is unspecified (a lone trailing backslash) - is translated to a string that
+    re.compile accepts: the pattern is compiled while REUSE.toml is loaded, outside every handler for parse errors."""
+    r = ck.rule(rid, "every REUSE.toml glob is translated to a well-formed regular expression (re.compile cannot raise while the file is loaded)")
+    import re._parser as _sp  # type: ignore
+    m = Matcher(repo)
+    n = 0
+    bad = None
+    for g in all_globs(4):
+        n += 1
+        rx = m.regex_for([g])
+        try:
+            _sp.parse(rx, 0)
+        except Exception as err:  # noqa: BLE001
+            bad = (g, rx, str(err))
+            break
+    r.instance("globs", {"checked": n, "first_invalid": bad})
+    if bad is not None:
+        r.violation(m.qual, f"glob {bad[0]!r} is translated to {bad[1]!r}, which is not a regular expression ({bad[2]})",
+                    f"`path = {bad[0]!r}` in a REUSE.toml: re.compile raises re.error inside the attrs post-init, which is not a"
+                    " GlobalLicensingParseError - every command that loads the project ends in a traceback instead of a message naming the file",
+                    "src/reuse/global_licensing.py")
 
 
 def run(ck: Check, repo: Repo) -> None:
